@@ -8,6 +8,8 @@ N1  ``return next((e for x in D if c), default)``           ->  ``for x in D: if
 N2  a list comprehension that calls a helper which must be run in place (a private helper or local closure with
     statement effects / loops)                              ->  the accumulator loop it abbreviates
 N4  ``for x in X: acc.append(x)``                               ->  ``acc.extend(X)``
+N9  ``it = iter(X); while (v := next(it, S)) is not S: body``   ->  ``for v in X: body`` (S a fresh ``object()``)
+N8  ``match s: case P if g: ...``                               ->  the if / elif chain (class / sequence / literal / capture / or patterns)
 N7  ``for x in _private_generator(..): body``                    ->  the generator's body with ``x = <yielded>; body`` at every yield
 N6  ``for i, y in enumerate(<generator>): body``                 ->  ``cnt = 0; for y in <generator>: i = cnt; cnt += 1; body``
 N5  ``for y in (f(x) for x in D if c): body``                    ->  ``for x in D: if c: y = f(x); body``
@@ -63,6 +65,13 @@ class Normalizer:
             ctx.loop_view = loop_view
             self._cache[key] = ctx.block(list(d.body))
         return self._cache[key]
+
+
+def match_as_if(model: Model, fn: Optional[FunctionInfo], st: ast.Match) -> Optional[List[ast.stmt]]:
+    """the if / elif chain a ``match`` statement abbreviates (None outside the supported pattern fragment)"""
+    ctx = _Ctx(model, fn, set())
+    ctx.n = 9000 + getattr(st, "lineno", 0)
+    return ctx._match_as_if(st)
 
 
 class _Ctx:
@@ -170,7 +179,15 @@ class _Ctx:
             new.body = self.block(st.body)
             new.orelse = self.block(st.orelse)
             return pre + [new]
+        if isinstance(st, ast.Match):
+            chain = self._match_as_if(st)
+            if chain is not None:
+                return self.block(chain)
+            return [st]
         if isinstance(st, ast.While):
+            as_for = self._iterator_while(st)
+            if as_for is not None:
+                return self.stmt(as_for)
             new = copy.copy(st)
             new.body = self.block(st.body)
             new.orelse = self.block(st.orelse)
@@ -238,6 +255,134 @@ class _Ctx:
                  any(isinstance(t, ast.Name) and t.id == name for t in (n.targets if isinstance(n, ast.Assign) else [n.target]))]
         params = {a.arg for a in ast.walk(self.root) if isinstance(a, ast.arg)}
         return bool(binds) and name not in params and all(isinstance(b.value, (ast.List, ast.ListComp)) for b in binds)
+
+    # -- N9 -------------------------------------------------------------------------------------------
+    def _iterator_while(self, st: ast.While) -> Optional[ast.For]:
+        """``it = iter(X)`` ... ``while (v := next(it, S)) is not S: body``  ->  ``for v in X: body`` (the iterator protocol spelled out)"""
+        t = st.test
+        if not (isinstance(t, ast.Compare) and len(t.ops) == 1 and isinstance(t.ops[0], ast.IsNot) and isinstance(t.left, ast.NamedExpr)
+                and isinstance(t.left.target, ast.Name) and isinstance(t.comparators[0], ast.Name)) or st.orelse or self.root is None:
+            return None
+        call = t.left.value
+        if not (isinstance(call, ast.Call) and isinstance(call.func, ast.Name) and call.func.id == "next" and len(call.args) == 2 and not call.keywords
+                and isinstance(call.args[0], ast.Name) and isinstance(call.args[1], ast.Name) and call.args[1].id == t.comparators[0].id):
+            return None
+        it_name, sentinel = call.args[0].id, call.args[1].id
+
+        def bindings(name):
+            return [n for n in ast.walk(self.root) if isinstance(n, (ast.Assign, ast.AnnAssign)) and
+                    any(isinstance(x, ast.Name) and x.id == name for x in (n.targets if isinstance(n, ast.Assign) else [n.target]))]
+        bi, bs = bindings(it_name), bindings(sentinel)
+        loads_it = [n for n in ast.walk(self.root) if isinstance(n, ast.Name) and n.id == it_name and isinstance(n.ctx, ast.Load)]
+        if len(bi) != 1 or len(bs) != 1 or len(loads_it) != 1:
+            return None
+        v = bi[0].value
+        if not (isinstance(v, ast.Call) and isinstance(v.func, ast.Name) and v.func.id == "iter" and len(v.args) == 1 and not v.keywords):
+            return None
+        sv = bs[0].value
+        if not (isinstance(sv, ast.Call) and isinstance(sv.func, ast.Name) and sv.func.id == "object" and not sv.args):
+            return None   # only a fresh sentinel can never be an element
+        new = ast.For(target=ast.Name(id=t.left.target.id, ctx=ast.Store()), iter=v.args[0], body=list(st.body), orelse=[])
+        ast.copy_location(new, st)
+        ast.fix_missing_locations(new)
+        return new
+
+    # -- N8 -------------------------------------------------------------------------------------------
+    def _match_as_if(self, st: ast.Match) -> Optional[List[ast.stmt]]:
+        """``match subject: case P [if g]: body ...``  ->  the if / elif chain it abbreviates (class patterns with keyword sub-patterns, sequence
+        patterns against a tuple display, literals / dotted constants / None, captures, wildcards, or-patterns without captures)."""
+        subject = st.subject
+        pre: List[ast.stmt] = []
+        if not isinstance(subject, (ast.Name, ast.Tuple)):
+            name = self.tmp()
+            pre.append(ast.Assign(targets=[ast.Name(id=name, ctx=ast.Store())], value=subject))
+            subject = ast.Name(id=name, ctx=ast.Load())
+        elif isinstance(subject, ast.Tuple):
+            elts = []
+            for e in subject.elts:
+                if isinstance(e, (ast.Name, ast.Constant)):
+                    elts.append(e)
+                else:
+                    name = self.tmp()
+                    pre.append(ast.Assign(targets=[ast.Name(id=name, ctx=ast.Store())], value=e))
+                    elts.append(ast.Name(id=name, ctx=ast.Load()))
+            subject = ast.Tuple(elts=elts, ctx=ast.Load())
+        cases = []
+        for c in st.cases:
+            r = self._pattern(c.pattern, subject)
+            if r is None:
+                return None
+            tests, binds = r
+            guard = c.guard
+            if guard is not None and binds:
+                guard = _subst_names(guard, dict(binds))
+            if guard is not None:
+                tests = tests + [guard]
+            test = ast.Constant(value=True) if not tests else (tests[0] if len(tests) == 1 else ast.BoolOp(op=ast.And(), values=tests))
+            body = [ast.Assign(targets=[ast.Name(id=n, ctx=ast.Store())], value=v) for n, v in binds] + list(c.body)
+            cases.append((test, body))
+        chain: List[ast.stmt] = []
+        for test, body in reversed(cases):
+            if isinstance(test, ast.Constant) and test.value is True:
+                chain = body
+            else:
+                chain = [ast.If(test=test, body=body, orelse=chain)]
+        out = pre + chain
+        for n in out:
+            for m in ast.walk(n):
+                if not hasattr(m, "lineno"):
+                    ast.copy_location(m, st)
+            ast.copy_location(n, st) if not hasattr(n, "lineno") else None
+            ast.fix_missing_locations(n)
+        return out
+
+    def _pattern(self, pat: ast.pattern, subj: ast.expr):
+        """-> ([test expressions], [(captured name, expression)]) or None when the pattern is outside the supported fragment"""
+        if isinstance(pat, ast.MatchAs):
+            if pat.pattern is None:
+                return ([], [(pat.name, subj)] if pat.name else [])
+            r = self._pattern(pat.pattern, subj)
+            if r is None:
+                return None
+            return (r[0], r[1] + ([(pat.name, subj)] if pat.name else []))
+        if isinstance(pat, ast.MatchSingleton):
+            return ([ast.Compare(left=subj, ops=[ast.Is()], comparators=[ast.Constant(value=pat.value)])], [])
+        if isinstance(pat, ast.MatchValue):
+            return ([ast.Compare(left=subj, ops=[ast.Eq()], comparators=[pat.value])], [])
+        if isinstance(pat, ast.MatchOr):
+            alts = []
+            for p2 in pat.patterns:
+                r = self._pattern(p2, subj)
+                if r is None or r[1]:
+                    return None
+                alts.append(ast.Constant(value=True) if not r[0] else (r[0][0] if len(r[0]) == 1 else ast.BoolOp(op=ast.And(), values=r[0])))
+            if any(isinstance(a, ast.Constant) and a.value is True for a in alts):
+                return ([], [])
+            return ([ast.BoolOp(op=ast.Or(), values=alts)], [])
+        if isinstance(pat, ast.MatchSequence):
+            if not isinstance(subj, ast.Tuple) or len(subj.elts) != len(pat.patterns) or any(isinstance(p2, ast.MatchStar) for p2 in pat.patterns):
+                return None
+            tests, binds = [], []
+            for p2, e in zip(pat.patterns, subj.elts):
+                r = self._pattern(p2, e)
+                if r is None:
+                    return None
+                tests += r[0]
+                binds += r[1]
+            return (tests, binds)
+        if isinstance(pat, ast.MatchClass):
+            if pat.patterns:
+                return None   # positional sub-patterns need __match_args__
+            tests = [ast.Call(func=ast.Name(id="isinstance", ctx=ast.Load()), args=[subj, pat.cls], keywords=[])]
+            binds = []
+            for attr, p2 in zip(pat.kwd_attrs, pat.kwd_patterns):
+                r = self._pattern(p2, ast.Attribute(value=subj, attr=attr, ctx=ast.Load()))
+                if r is None:
+                    return None
+                tests += r[0]
+                binds += r[1]
+            return (tests, binds)
+        return None
 
     # -- N7 -------------------------------------------------------------------------------------------
     def _generator_loop(self, st: ast.For) -> Optional[List[ast.stmt]]:
@@ -471,6 +616,18 @@ class _Ctx:
             ast.copy_location(n, st)
             ast.fix_missing_locations(n)
         return out
+
+
+def _subst_names(e: ast.AST, mp: Dict[str, ast.expr]) -> ast.AST:
+    if isinstance(e, ast.Name) and isinstance(e.ctx, ast.Load) and e.id in mp:
+        return copy.deepcopy(mp[e.id])
+    new = copy.copy(e)
+    for field, val in ast.iter_fields(e):
+        if isinstance(val, ast.AST):
+            setattr(new, field, _subst_names(val, mp))
+        elif isinstance(val, list):
+            setattr(new, field, [_subst_names(x, mp) if isinstance(x, ast.AST) else x for x in val])
+    return new
 
 
 def _as_extend(st: ast.For, it: ast.expr) -> Optional[ast.stmt]:
